@@ -390,3 +390,64 @@ pub fn msg_seq(cfg: SeqCfg) -> BoxedStrategy<Seq> {
         })
         .boxed()
 }
+
+// ------------------------------------------------------------------------------------------------
+// Foreign sender sequences (C06, C15, C16)
+
+use crate::drive::{FMsg, FOp};
+
+pub fn csid() -> BoxedStrategy<u32> {
+    prop_oneof![
+        6 => 2u32..9,
+        4 => pick(&[63u32, 64, 65, 318, 319, 320, 321, 65598, 65599, 575, 576]),
+        1 => 2u32..65600,
+    ]
+    .boxed()
+}
+
+pub fn foreign_ops(max_ops: usize, chunk_change_pct: u8, len_cap: u32) -> BoxedStrategy<Vec<FOp>> {
+    let palette = (
+        proptest::collection::vec(csid(), 1..=3),
+        proptest::collection::vec(type_id(), 1..=2),
+        proptest::collection::vec(msid(), 1..=2),
+        proptest::collection::vec(delta_u32(), 1..=2),
+        proptest::collection::vec(len_spec(), 1..=2),
+    );
+    let draft = (
+        (0u8..100, 0u8..100, 0u8..100, 0u8..100, 0u8..100, 0u8..100),
+        (any::<u16>(), any::<u16>(), any::<u16>(), any::<u16>(), any::<u16>()),
+        (csid(), type_id(), msid(), delta_u32(), len_spec()),
+        (any::<u32>(), prop_oneof![1 => Just(0u8), 1 => Just(1u8), 1 => Just(2u8), 6 => Just(3u8)], 0u8..100, 0u8..100, chunk_size()),
+    );
+    (palette, proptest::collection::vec(draft, 1..=max_ops))
+        .prop_map(move |((pc, pt, pm, pd, pl), drafts)| {
+            let mut ops = Vec::new();
+            let mut cs = 128u32;
+            let ix = |i: u16, n: usize| ((i as usize) * n) >> 16;
+            for ((kind, sc, st, sm, sd, sl), (ic, it, im, id, il), (oc, ot, om, od, ol), (fill, want_fmt, tb, f0, new_cs)) in drafts {
+                if kind < chunk_change_pct {
+                    ops.push(FOp::Chunk(new_cs));
+                    cs = new_cs;
+                    continue;
+                }
+                let csid = if sc < 90 { pc[ix(ic, pc.len())] } else { oc };
+                let type_id = if st < 85 { pt[ix(it, pt.len())] } else { ot };
+                let msid = if sm < 85 { pm[ix(im, pm.len())] } else { om };
+                let dts = if sd < 85 { pd[ix(id, pd.len())] } else { od };
+                let len = if sl < 85 { pl[ix(il, pl.len())].clone() } else { ol };
+                ops.push(FOp::Msg(FMsg {
+                    csid,
+                    want_fmt,
+                    three_byte: tb < 10,
+                    fmt0_cont: f0 < 5,
+                    type_id,
+                    msid,
+                    dts,
+                    len: len.resolve(cs, len_cap),
+                    fill,
+                }));
+            }
+            ops
+        })
+        .boxed()
+}
